@@ -82,11 +82,15 @@ var fzWeighted = func() []int {
 	return w
 }()
 
-// fzNoteLine renders a notation line.
-func fzNoteLine(prefix, name string, args []string, sep string) string {
+// fzNoteLine renders a notation line; sep1 separates the name from the first argument.
+func fzNoteLine(prefix, name string, args []string, sep1, sep string) string {
 	s := prefix + name
-	for _, a := range args {
-		s += sep + a
+	for i, a := range args {
+		if i == 0 {
+			s += sep1 + a
+		} else {
+			s += sep + a
+		}
 	}
 	return s
 }
@@ -164,7 +168,11 @@ func fzRandomNote(r *rand.Rand, i int, toks map[string][]fzTok, cats []string) (
 	if r.Intn(10) == 0 {
 		pre = fzPrefixes[r.Intn(len(fzPrefixes))]
 	}
-	line = fzNoteLine(pre.s, note.name, args, sep.s)
+	sep1 := sep.s
+	if r.Intn(4) != 0 {
+		sep1 = pickS(r, []string{" ", " ", "\t", "  "})
+	}
+	line = fzNoteLine(pre.s, note.name, args, sep1, sep.s)
 	if r.Intn(12) == 0 {
 		line += pickS(r, []string{" ", "\t", "   // trailing", "  "})
 	}
@@ -403,7 +411,7 @@ func fzWrongLevel() []*fzCase {
 		}
 		for _, v := range [][]string{nt.good, nil, {"Nope", "Nope", "Nope"}} {
 			c := &fzCase{class: fmt.Sprintf("a/wrong-level/iface-%s-%dargs", nt.name, len(v)), group: "a/wrong-level", positioned: true}
-			c.idoc = []string{inj(fzNoteLine("// :", nt.name, v, " "))}
+			c.idoc = []string{inj(fzNoteLine("// :", nt.name, v, " ", " "))}
 			c.feat("notation", nt.name)
 			out = append(out, c)
 		}
